@@ -84,10 +84,25 @@ theorem toGateL_parts : ∀ (c : List (List String)), PTree.toGateL (c.map partT
   | [] => rfl
   | p :: ps => by simp [PTree.toGateL, toGate_partTree, toGateL_parts ps]
 
+/-- the observed sets as `process_missing_and_gates` hands them to the cover step (after dcf1496): every set with
+the part of it that lies among the gate's events, the empty parts dropped, as a set of sets -/
+def projF (F : List (List String)) (R : List String) : List (List String) :=
+  ((F.map fun s => interS s R).filter fun s => !s.isEmpty).eraseDups
+
+theorem mem_projF {F : List (List String)} {R t : List String} :
+    t ∈ projF F R ↔ ∃ s ∈ F, interS s R = t ∧ t ≠ [] := by
+  unfold projF
+  rw [List.mem_eraseDups, List.mem_filter, List.mem_map]
+  constructor
+  · rintro ⟨⟨s, hs, rfl⟩, hne⟩
+    exact ⟨s, hs, rfl, by simpa using hne⟩
+  · rintro ⟨s, hs, rfl, hne⟩
+    exact ⟨⟨s, hs, rfl⟩, by simpa using hne⟩
+
 /-- the outcomes of the post-processing on the flat node, listed -/
 theorem postProcess_flat (F : List (List String)) (R : List String) (hR : R ≠ []) :
     postProcess F (rawLeaves [] R) =
-      (weightedCover (F.filter fun s => subsetS s R) R).map fun r => match r with
+      (weightedCover (projF F R) R).map fun r => match r with
         | some cover => PTree.node .or (cover.map partTree)
         | none => PTree.node .or (R.map PTree.leaf) := by
   unfold postProcess
@@ -102,7 +117,8 @@ theorem postProcess_flat (F : List (List String)) (R : List String) (hR : R ≠ 
   rw [h1, h2]
   show (missingAnd (48 + 2) F (.node .or (R.map PTree.leaf))) = _
   simp only [missingAnd, beq_self_eq_true, if_true, mapM_leafLabel_leaves, List.flatMap_map]
-  induction weightedCover (F.filter fun s => subsetS s R) R with
+  show List.flatMap _ (weightedCover (projF F R) R) = _
+  induction weightedCover (projF F R) R with
   | nil => rfl
   | cons r rs ih =>
     simp only [List.flatMap_cons, List.map_cons, ih]
@@ -118,18 +134,20 @@ theorem postProcess_flat (F : List (List String)) (R : List String) (hR : R ≠ 
 theorem sameS_iff {a b : List String} : sameS a b = true ↔ (∀ x ∈ a, x ∈ b) ∧ (∀ x ∈ b, x ∈ a) := by
   simp [sameS, subsetS_iff]
 
-/-- **end to end on the flat case** -/
-theorem post_flat_sound (F : List (List String)) (R : List String) (hR : R ≠ [])
+/-- **end to end on the flat case**: whatever else the observed sets contain (the gate may sit anywhere in the
+tree), every outcome admits the part of every observed set that lies among the gate's events -/
+theorem post_flat_sound_proj (F : List (List String)) (R : List String) (hR : R ≠ [])
     (o : PTree) (ho : o ∈ postProcess F (rawLeaves [] R))
-    (s : List String) (hs : s ∈ F) (hne : s ≠ []) (hsub : ∀ x ∈ s, x ∈ R) :
-    ∃ g, o.toGate = some g ∧ admits g s = true := by
+    (s : List String) (hs : s ∈ F) (hne : interS s R ≠ []) :
+    ∃ g, o.toGate = some g ∧ admits g (interS s R) = true := by
+  have hsub : ∀ x ∈ interS s R, x ∈ R := fun x hx => (mem_interS.mp hx).2
   rw [postProcess_flat F R hR, List.mem_map] at ho
   obtain ⟨r, hr, rfl⟩ := ho
   cases r with
   | none =>
     refine ⟨rebuilt (R.map fun a => [a]), ?_, ?_⟩
     · simp only [PTree.toGate, toGateL_leaves, Option.map_some, rebuilt, map_partGate_singletons]
-    · apply rebuilt_admits _ s hne
+    · apply rebuilt_admits _ _ hne
       intro x hx
       refine ⟨[x], List.mem_map.mpr ⟨x, hsub x hx, rfl⟩, ?_, List.mem_singleton.mpr rfl⟩
       intro y hy
@@ -138,17 +156,29 @@ theorem post_flat_sound (F : List (List String)) (R : List String) (hR : R ≠ [
   | some cover =>
     refine ⟨rebuilt cover, ?_, ?_⟩
     · simp only [PTree.toGate, toGateL_parts, Option.map_some, rebuilt]
-    · have hmem : s ∈ F.filter fun t => subsetS t R := List.mem_filter.mpr ⟨hs, subsetS_iff.mpr hsub⟩
+    · have hmem : interS s R ∈ projF F R := mem_projF.mpr ⟨s, hs, rfl, hne⟩
       obtain ⟨c1, _, c3, c4⟩ := weightedCover_spec _ R cover hr
-      by_cases hsame : sameS s R = true
-      · -- `s` is the whole universe: every member of the cover lies inside it
-        apply rebuilt_admits cover s hne
+      by_cases hsame : sameS (interS s R) R = true
+      · -- the part is the whole universe: every member of the cover lies inside it
+        apply rebuilt_admits cover _ hne
         intro x hx
         obtain ⟨p, hp, hxp⟩ := c3 x (hsub x hx)
         refine ⟨p, hp, ?_, hxp⟩
         intro y hy
-        have hpR : ∀ z ∈ p, z ∈ R := subsetS_iff.mp (List.mem_filter.mp (c1 p hp)).2
-        exact (sameS_iff.mp hsame).2 y (hpR y hy)
-      · exact rebuilt_admits cover s hne (c4 s hmem (by simpa using hsame))
+        obtain ⟨s', _, rfl, _⟩ := mem_projF.mp (c1 p hp)
+        exact (sameS_iff.mp hsame).2 y (mem_interS.mp hy).2
+      · exact rebuilt_admits cover _ hne (c4 _ hmem (by simpa using hsame))
+
+theorem interS_of_subset {s R : List String} (h : ∀ x ∈ s, x ∈ R) : interS s R = s := by
+  unfold interS
+  exact List.filter_eq_self.mpr fun x hx => by simpa using h x hx
+
+/-- the special case of sets lying wholly below the gate -/
+theorem post_flat_sound (F : List (List String)) (R : List String) (hR : R ≠ [])
+    (o : PTree) (ho : o ∈ postProcess F (rawLeaves [] R))
+    (s : List String) (hs : s ∈ F) (hne : s ≠ []) (hsub : ∀ x ∈ s, x ∈ R) :
+    ∃ g, o.toGate = some g ∧ admits g s = true := by
+  have h := post_flat_sound_proj F R hR o ho s hs (by rw [interS_of_subset hsub]; exact hne)
+  rwa [interS_of_subset hsub] at h
 
 end O2P.Gate
